@@ -64,8 +64,8 @@ def main():
             extra = {"service_class": ["pynetdicom/tests/test_service_qr.py", "pynetdicom/tests/test_service_storage.py", "pynetdicom/tests/test_service_verification.py"],
                      "dimse_messages": ["pynetdicom/tests/test_dimse_c.py", "pynetdicom/tests/test_dimse_n.py", "pynetdicom/tests/test_dimse_provider.py"],
                      "association": ["pynetdicom/tests/test_assoc.py"], "pdu_items": ["pynetdicom/tests/test_pdu_items.py"],
-                     "dimse": ["pynetdicom/tests/test_dimse_provider.py"], "db": ["pynetdicom/apps/tests/test_qrscp.py", "pynetdicom/apps/tests/test_qrscp_db.py"],
-                     "handlers": ["pynetdicom/apps/tests/test_qrscp.py"], "dimse_primitives": ["pynetdicom/tests/test_primitives.py", "pynetdicom/tests/test_dimse_c.py", "pynetdicom/tests/test_dimse_n.py"],
+                     "dimse": ["pynetdicom/tests/test_dimse_provider.py"], "db": ["pynetdicom/apps/tests/test_qrscp_db.py", "pynetdicom/apps/tests/test_qrscp_find.py"],
+                     "handlers": ["pynetdicom/apps/tests/test_qrscp_store.py", "pynetdicom/apps/tests/test_qrscp_db.py", "pynetdicom/apps/tests/test_qrscp_find.py"], "dimse_primitives": ["pynetdicom/tests/test_primitives.py", "pynetdicom/tests/test_dimse_c.py", "pynetdicom/tests/test_dimse_n.py"],
                      "_validators": ["pynetdicom/tests/test_validators.py", "pynetdicom/tests/test_utils.py", "pynetdicom/tests/test_primitives.py", "pynetdicom/tests/test_pdu.py"], "common": ["pynetdicom/apps/tests/test_common.py", "pynetdicom/apps/tests/test_storescp.py"]}
             for f in files:
                 for t in extra.get(os.path.basename(f)[:-3], []):
